@@ -2,6 +2,7 @@
 // to run_case (defined by the family linked into this binary), lets rapidcheck shrink.
 #include <rapidcheck.h>
 #include <algorithm>
+#include <time.h>
 #include <unistd.h>
 
 #include <cstdio>
@@ -20,6 +21,8 @@ using namespace vh;
 static std::vector<uint8_t> last_fail;
 static std::string last_fail_json;
 static long n_exec = 0;
+static double first_fail_at = 0;
+static double shrink_budget_s = 60;
 static std::string avoid_path;           // restarts after a hard death: hashes of the cases that killed a worker
 static std::set<uint64_t> avoid;
 
@@ -132,6 +135,9 @@ int main(int argc, char **argv) {
     // the vector length follows rapidcheck's size parameter
     auto byteGen = rc::gen::map(rc::gen::resize(200, rc::gen::inRange<int>(0, 256)), [](int x) { return (uint8_t)x; });
     auto v = *rc::gen::scale((double)maxlen_scale, rc::gen::container<std::vector<uint8_t>>(byteGen));
+    // shrinking is bounded in wall time (a failing case that blocks or crawls would otherwise make the
+    // shrink phase take hours): afterwards every candidate "passes" and rapidcheck stops at the best so far
+    if (first_fail_at > 0 && (double)time(nullptr) - first_fail_at > shrink_budget_s) return;
     if (!avoid.empty()) {
       std::vector<uint8_t> f = with_header(v);
       if (avoid.count(fnv(f.data(), f.size()))) return;  // already reported by the driver as a crash
@@ -141,6 +147,8 @@ int main(int argc, char **argv) {
     if (r) {
       last_fail = with_header(v);
       last_fail_json = js;
+      if (first_fail_at == 0) first_fail_at = (double)time(nullptr);
+      if (js.find("signal:BLOCKED") != std::string::npos || js.find("\"blocked\"") != std::string::npos) shrink_budget_s = 0;  // every attempt costs a full watchdog period
     }
     RC_ASSERT(r == 0);
   });
